@@ -143,6 +143,13 @@ func (u *Unit) havocLoop(st *State, fr *Frame, lc *LoopContract) bool {
 			return
 		}
 		old := st.objs[p.Obj]
+		// a slice variable that the loop only ever re-slices (x = x[i:j]) keeps its backing array
+		if osl, ok := old.(SliceV); ok && osl.R != nil && u.onlyResliced(fr, lc, a) {
+			off, ln, cp := Fresh(a.Comment+".off", SortInt), Fresh(a.Comment+".len", SortInt), Fresh(a.Comment+".cap", SortInt)
+			st.assume(And(IntLe(osl.Off, off), IntLe(IntK(0), ln), IntLe(ln, cp), Eq(IntAdd(off, cp), IntAdd(osl.Off, osl.Cap))))
+			st.objs[p.Obj] = SliceV{osl.R, off, ln, cp}
+			return
+		}
 		nv := u.havoc(st, a.Type().(*types.Pointer).Elem(), a.Comment)
 		inheritFresh(old, nv)
 		st.objs[p.Obj] = nv
@@ -664,4 +671,27 @@ func (u *Unit) splitCases(st *State, fr *Frame, b *ssa.BasicBlock, lc *LoopContr
 		outs = append(outs, u.run(s2, f2, b, 0)...)
 	}
 	return outs
+}
+
+// onlyResliced: every store to cell a inside the loop stores a re-slice of a's own current value.
+func (u *Unit) onlyResliced(fr *Frame, lc *LoopContract, a *ssa.Alloc) bool {
+	n := 0
+	for blk := range lc.body {
+		for _, in := range blk.Instrs {
+			s, ok := in.(*ssa.Store)
+			if !ok || s.Addr != a {
+				continue
+			}
+			n++
+			sl, ok := s.Val.(*ssa.Slice)
+			if !ok {
+				return false
+			}
+			ld, ok := sl.X.(*ssa.UnOp)
+			if !ok || ld.X != a {
+				return false
+			}
+		}
+	}
+	return n > 0
 }
